@@ -94,6 +94,7 @@ func (c *Ctx) Sample(v interface{}) {
 func (c *Ctx) Violate(class, what string, replay interface{}) {
 	if len(c.Res.Violations) < 50 {
 		c.Res.Violations = append(c.Res.Violations, Violation{Class: class, What: what, Replay: replay})
+		c.Finish() // keep what was found even if the library kills the process later
 	}
 }
 
